@@ -254,7 +254,7 @@ EXTRA = {
     "C03": " Also (R03.5) sample status is never decided by comparing the whole node-flags word (bitwise test or ts.samples() only); (R03.6) samples are never identified by position (num_samples is a count, not an id boundary).",
     "C04": " Also (R04.5) values computed over whole posterior-grid rows reach node positions only through the grid's own nonfixed_nodes order, never through a mask/arange (ascending id).",
     "C08": " Also (R08.4) no dependence on node-flag bits other than NODE_IS_SAMPLE: flags are only bit-tested or moved as a column.",
-    "C09": " Also (R09.7) a reused prior object is converted to the likelihood's space unconditionally; (R09.8 = R36.4) the on-disk prior cache is written losslessly so cold-cache and warm-cache calls compute from identical tables.",
+    "C09": " Also (R09.7) a reused prior object is converted to the likelihood's space unconditionally; (R09.8 = R36.4) the on-disk prior cache is written losslessly so cold-cache and warm-cache calls compute from identical tables; (R09.9) NodeTimeValues never converts its arrays in place (clones share them).",
     "C10": " Also (R10.3) a mutation's edge id is NULL-tested before it indexes the per-edge count array (root mutations are not credited to the last edge); (R10.4) fit.node_posteriors() rows are scattered to nodes through nonfixed_nodes only.",
     "C11": " Also (R11.3) grid rows (time-sorted) reach node ids only through nonfixed_nodes; (R11.4) samples are never identified by their position in the node table.",
     "C12": " Also (R12.4) BeliefPropagation.__init__ converts the prior grid to lik.probability_space unconditionally, for either space.",
@@ -265,12 +265,13 @@ EXTRA = {
     "C24": " Also (R24.5) no nullable id (mutation edge, node individual, Tree.parent, entries of NULL-initialised tables) indexes an array without a dominating NULL test; (R24.6) set/reset pairing and exhaustion of the incremental edge sweeps.",
     "C27": " Also (R27.4) the contemporaneous-samples test reads sample times through ts.samples(), never by position.",
     "C28": " Also (R28.3) sample status in preprocessing is decided by the NODE_IS_SAMPLE bit, never by comparing the whole flags word.",
-    "C29": " Also (R29.5) samples are excluded from splitting by a bit test of the flags; (R29.6) the empty-metadata shortcut of _reorder_nodes accounts for the new unsplit_node_id rows.",
+    "C29": " Also (R29.5) samples are excluded from splitting by a bit test of the flags; (R29.6) the empty-metadata shortcut of _reorder_nodes accounts for the new unsplit_node_id rows; (R29.7) _relabel_mutations_node maps both ends of every inserted edge unconditionally.",
     "C30": " Also (R30.2) exhaustiveness of the detectors' traversals (sweep runs until insertions and removals are exhausted; edge_diffs consumers read both directions); (R30.3) the span-counting pass's own unary finding raises unless allow_unary.",
     "C31": " Also (R31.2) the parent id from tree.parent() is NULL-tested before indexing node times; (R31.3) samples are never identified by position.",
     "C32": " Also (R32.3) set_metadata is read (forwarded) by every entry point on its way to the policy; R32.2 additionally requires existing rows to be decoded whenever the table holds metadata.",
+    "C33": " Also (R33.5) the recorded population_size rebuilds the history: PopulationSizeHistory.as_dict inverts the constructor (sizes halved; time_breaks emitted exactly when a break exists).",
     "C34": " Also (R34.5) rejection guards test option presence with `is (not) None`, never by truthiness (0 is a value).",
-    "C35": " Also (R35.6) no public parameter is accepted and never read; (R35.7) a local bound only inside `for _ in range(<param>)` and read afterwards requires every call site to establish <argument> > 0.",
+    "C35": " Also (R35.6) no public parameter is accepted and never read; (R35.7) a local bound only inside `for _ in range(<param>)` and read afterwards requires every call site to establish <argument> > 0; (R35.8) None-defaults are replaced through `is None`, never `param or DEFAULT`.",
     "C36": " Also (R36.4) the cache text format is lossless for float64; a temporary whose name is derived from the cache path (shared by all writers) is a violation of R36.1.",
     "C38": " The operand must be positively time-derived (max/argmax over node times): a count-derived, span-derived or membership test is a violation.",
 }
